@@ -148,6 +148,13 @@ def run_case(case, ctx):
                 exp = tuple(exp_batches[i]) if width > 1 else exp_batches[i][0]
                 ctx.need(got == exp and type(got) is type(exp), "generic/Batcher/batch",
                          lambda: "n=%d bs=%d batch %d = %r expected %r" % (n, bs, i, got, exp))
+            # a Batcher is a stateless view: reverse order, repeated access and iteration through the sequence protocol agree
+            exp_all = [tuple(b) if width > 1 else b[0] for b in exp_batches]
+            rev = guard(ctx, "Batcher.__getitem__", lambda: [B[i] for i in reversed(range(nb))] + ([B[0]] if nb else []))
+            ctx.need(rev == list(reversed(exp_all)) + exp_all[:1], "generic/Batcher/batch-depends-on-access-order",
+                     lambda: "n=%d bs=%d: batches read in reverse order %r expected %r" % (n, bs, rev, list(reversed(exp_all)) + exp_all[:1]))
+            seq = guard(ctx, "Batcher-iteration", lambda: common_take(B, nb + 2))
+            ctx.need(seq == exp_all, "generic/Batcher/iteration", lambda: "n=%d bs=%d: iterating the Batcher gives %r expected %r" % (n, bs, seq, exp_all))
             for bad in (nb, nb + 1):
                 try:
                     B[bad]
@@ -168,6 +175,14 @@ def run_case(case, ctx):
             exp = [tuple(b) for b in exp_it] if width > 1 else [b[0] for b in exp_it]
             ctx.need(got == exp, "generic/BatcherIter/batches",
                      lambda: "n=%d bs=%d width=%d cut=%d: %r expected %r" % (n, bs, width, cut, got, exp))
+        if width == 1 and typ != "gen":
+            # over a re-iterable input every iteration of one BatcherIter starts afresh
+            bi = G.BatcherIter(cols[0], bs)
+            one = guard(ctx, "BatcherIter", lambda: common_take(bi, nb + 2))
+            two = guard(ctx, "BatcherIter", lambda: common_take(bi, nb + 2))
+            expl = [list(b[0]) for b in exp_batches]
+            ctx.need(one == expl and two == expl, "generic/BatcherIter/second-iteration-differs",
+                     lambda: "n=%d bs=%d: first iteration %r second %r expected %r" % (n, bs, one, two, expl))
         if n % bs != 0 and n > bs:
             ctx.nontrivial = True
             ctx.label("partial-last-batch")
